@@ -25,7 +25,7 @@ Record dfield := {
   D_mul : forall lg i a b, D lg i (fmul a b) = fadd (fmul (D lg i a) b) (fmul a (D lg i b));
   D_phi : forall lg i z, D lg i (phi F f0 f1 fadd fmul fopp z) = f0;
   D_cst : forall lg i n, D lg i (cst n) = f0;
-  D_crd : forall lg i j, D lg i (crd lg j) = if Nat.eqb i j then f1 else f0;
+  D_crd : forall lg i j, D lg i (crd lg j) = if Nat.eqb i j && Nat.ltb j 3 then f1 else f0;
   D_comm : forall lg i j a, D lg i (D lg j a) = D lg j (D lg i a);
   (* elementary functions are partial: [Edom f a] = the composition exists *)
   Edom : fname -> F -> Prop;
